@@ -2,6 +2,6 @@ SPECIFICATION Spec
 CONSTANTS
   NodeKeys = {"e1","e2"}
   ServerKeys = {"g1","g2"}
-  KeyIds = {"k1","k2"}
+  KeyIds = {"k1","k2","k0"}
 INVARIANTS InvC11 InvBinding InvC12Shape
 CHECK_DEADLOCK FALSE
